@@ -1,14 +1,18 @@
 #!/bin/bash
 # tools/mut_check.sh <patch file> <Cxx> [Cyy ...]
-# Runs checks against a scratch copy (/tmp/repo_mut + /tmp/verif_mut) with the patch applied, so that
-# /repo itself stays untouched (needed while a long run is using /repo).
+# Runs checks against a scratch copy (/tmp/repo_mut$MUT + /tmp/verif_mut$MUT: a git worktree of /repo and
+# an rsync copy of /verif) with the patch applied, so that /repo itself stays untouched (needed while
+# a long run is using /repo). MUT=<suffix> selects another scratch pair (created on first use).
 P="$1"; shift
-rsync -a --delete --exclude harness/target --exclude .git --exclude replays --exclude evidence --exclude harness/Cargo.toml /verif/ /tmp/verif_mut/
-cd /tmp/repo_mut && git checkout -q -- . && git apply "$P" || { echo "patch failed"; exit 4; }
-cd /tmp/verif_mut
+R=/tmp/repo_mut${MUT:-}; V=/tmp/verif_mut${MUT:-}
+[ -d $R ] || git -C /repo worktree add --detach $R HEAD >/dev/null 2>&1
+rsync -a --delete --exclude harness/target --exclude .git --exclude replays --exclude evidence --exclude harness/Cargo.toml /verif/ $V/
+[ -f $V/harness/Cargo.toml ] || sed "s#/repo/chitchat#$R/chitchat#" /verif/harness/Cargo.toml > $V/harness/Cargo.toml
+cd $R && git checkout -q -- . && git apply "$P" || { echo "patch failed"; exit 4; }
+cd $V
 for p in "$@"; do
   out=$(./check $p --tier quick 2>&1); rc=$?
   echo "CHECK $p rc=$rc"
-  echo "$out" | grep -vE "^\[C|^VIOLATION|^KNOWN" | head -2 | cut -c1-300
+  echo "$out" | grep -vE "^\[C|^VIOLATION|^KNOWN|^$|panicked at" | head -2 | cut -c1-300
 done
-cd /tmp/repo_mut && git checkout -q -- .
+cd $R && git checkout -q -- .
